@@ -51,6 +51,18 @@ func runSolver(ctx context.Context, sp solverSpec, file string, timeoutS int) (s
 	if i := strings.IndexByte(s, '\n'); i >= 0 {
 		first = strings.TrimSpace(s[:i])
 	}
+	// solvers may print warnings before the answer: take the first line that is an answer
+	for _, l := range strings.Split(s, "\n") {
+		l = strings.TrimSpace(l)
+		if l == "sat" || l == "unsat" || l == "unknown" || l == "timeout" {
+			first = l
+			break
+		}
+		if strings.HasPrefix(l, "(error") {
+			first = l
+			break
+		}
+	}
 	return first, s
 }
 
